@@ -223,12 +223,11 @@ def open_site_ok(an, start, end):
         if const_values(an, end) == {16 + 36, 16 + 48}:
             return True, "header tail (36 / 48 bytes by class)"
         return False, "header tail end is not 16+36 / 16+48"
-    # table reads: start = try_into(e_shoff|e_phoff)!Ok ; end = checked_add(start, X)!Some
-    if start.op == "payload" and start.args[0].op == "call" and start.args[0].args[0] == "convert::TryInto::try_into":
-        src = start.args[0].args[2][0]
-        fld = src.args[1][2] if src.op == "proj" else None
-        if fld in ("e_shoff", "e_phoff") and end.op == "payload" and end.args[0].op == "call" and end.args[0].args[0] == "usize::checked_add":
-            a, b = end.args[0].args[2]
-            if a is start:
-                return True, "table read at %s with checked size %s" % (fld, pp(b)[:80])
+    # table reads: start = e_shoff | e_phoff (converted to usize), end = start + X in checked arithmetic (normal forms: conversions,
+    # `?` plumbing and helper functions do not matter; a clamp or an unchecked operation would show)
+    from ..prov import norm as pnorm
+    sn, en = pnorm(start), pnorm(end)
+    if sn[0] == "fld" and sn[2] in ("e_shoff", "e_phoff") and en[0] == "+" and sn in en[1:]:
+        other = [x for x in en[1:] if x != sn]
+        return True, "table read at %s with checked size %s" % (sn[2], str(other[0] if other else sn)[:80])
     return False, "not one of: ident, header tail, shdr[0], section header table, program header table"
